@@ -208,7 +208,7 @@ Proof.
     assert (Hfe' : first_end_gt off' ((s, e) :: rest)) by (cbn [first_end_gt]; destruct H2; lia).
     destruct (in_page_ok l cur off' ((s, e) :: rest) [] Hch Hfe')
       as (inpage & rs' & Hin & Hc' & Hf' & (k & Hk) & Heq).
-    Set Printing All. Show. Unset Printing All. rewrite Hin. cbv beta iota delta [obind].
+    unfold range in *. rewrite Hin. cbv beta iota delta [obind].
     cbn [pages_at] in H4. destruct H4 as (Hcont & Hp').
     assert (Hend' : ends_le (off' + cur + nsum prest) rs').
     { subst rs'. apply Forall_skipn'. unfold ends_le in *.
